@@ -332,12 +332,69 @@ def run_stamps(chk, tmp):
     DIST["stamps"] = {"pairs": n}
 
 
+def run_e2e_submitter_events(chk, tmp):
+    """Whole submissions through the real JobSubmitter / HpcSubmitter / JobRunner (scripted scheduler and job processes,
+    harness/resubmitdrv.py) with report generation on, as by default: `jade show-events` (run by generate_reports)
+    consolidates the event logs.  Every event the submitter processes logged to submit_jobs_events.log - the completion
+    event in particular - must be in the consolidated summary the user is shown afterwards."""
+    import collections
+    import random
+    from harness import resubmitdrv as wd, jadeenv
+    n = 4 if chk.tier == "quick" else 25
+    rng = random.Random(chk.seed * 7 + 20)
+    bad = 0
+    for k in range(n):
+        nj = rng.randint(1, 4)
+        names = [f"e{i}" for i in range(nj)]
+        jobs = [{"name": x, "deps": [y for y in names[:i] if rng.random() < 0.4], "group": "g", "est": 1,
+                 "rc": (2 if rng.random() < 0.25 else 0), "cancel": rng.random() < 0.5} for i, x in enumerate(names)]
+        sc = {"jobs": jobs, "groups": [{"name": "g", "size": rng.randint(1, 3), "time": False, "try": True, "nproc": 1, "reports": True}],
+              "max_nodes": rng.choice([1, 2]), "hooks": {}, "node_cpus": 2}
+        out = os.path.join(tmp, f"e2e{k}", "out")
+        os.makedirs(out)
+        rc = {j["name"]: j["rc"] for j in jobs}
+        try:
+            with wd.patched():
+                from jade.jobs.job_submitter import JobSubmitter
+                from jade.loggers import setup_event_logging
+                world = wd.use(wd.World(out, lambda name, attempt: rc.get(name, 0), rng=random.Random(k)))
+                setup_event_logging(os.path.join(out, "submit_jobs_events.log"))      # as `jade submit-jobs` does
+                JobSubmitter.run_submit_jobs(jadeenv.make_config(sc), out)
+                wd.drain(world)
+        except Exception as e:   # noqa
+            chk.tie_broken("e2e submission for the event summary crashed", repr(e)[:300])
+            continue
+        logged = collections.Counter()
+        f = os.path.join(out, "submit_jobs_events.log")
+        if os.path.exists(f):
+            for line in open(f):
+                try:
+                    logged[json.loads(line)["name"]] += 1
+                except Exception:   # noqa
+                    pass
+        cons = {}
+        for name in logged:
+            fn = os.path.join(out, "events", name + ".json")
+            cons[name] = len(json.load(open(fn))) if os.path.exists(fn) else 0
+        chk.count(("e2e-events", json.dumps(sc, sort_keys=True)), nontrivial=nj > 1)
+        lost = {nm: [c, cons.get(nm, 0)] for nm, c in logged.items() if cons.get(nm, 0) < c}
+        if lost and os.path.isdir(os.path.join(out, "events")):
+            bad += 1
+            chk.violation("submitter-event-not-in-summary",
+                          "events logged by the submitter are absent from the consolidated summary written by report generation "
+                          "(name: [logged, consolidated]): %s" % lost, {"component": "JobSubmitter._handle_completion + generate_reports + EventsSummary",
+                                                                       "scenario": sc, "logged": dict(logged), "consolidated": cons})
+    chk.oblige(f"e2e: all submitter events of {n} whole submissions with report generation are in the consolidated summary", bad == 0,
+               f"{bad} submissions lose events")
+    DIST["e2e_submissions_with_reports"] = n
+
+
 def run(chk):
     proofs_ok = core.standard_proof_phase(chk, "C20", gen_needed=("ReportsGen",))
     rd.quiet_jade_logging()
     tmp = tempfile.mkdtemp(prefix="verif_c20_")
     try:
-        for part in (run_events, run_events_multiprocess, run_aggregation, run_stats, run_tally, run_stamps):
+        for part in (run_events, run_events_multiprocess, run_aggregation, run_stats, run_tally, run_stamps, run_e2e_submitter_events):
             if not all((core.THEORIES / f).exists() for f in ("Events.vo", "Stats.vo", "Tally.vo")):
                 break   # the models themselves did not build: nothing to compare with (already reported)
             try:
